@@ -1,6 +1,7 @@
 import Driver.Util
 import NutsModel.C06.Admit
 import NutsModel.C06.Cfg
+import NutsModel.C06.Framing
 open Lean Nuts.Drv Nuts.C06 Nuts
 
 namespace Nuts.Drv.C06
@@ -39,16 +40,33 @@ def parseMembers (j : Json) : List (String × J) :=
       | _ => none
     | _ => none
 
-/-- the header as jwx presents it, or the parse class when jwx refuses the input -/
-def hdrOf (j : Json) : Res Hdr :=
+def b64StdVal (c : Char) : Option Nat :=
+  let n := c.toNat
+  if 65 ≤ n && n ≤ 90 then some (n - 65) else if 97 ≤ n && n ≤ 122 then some (n - 71) else if 48 ≤ n && n ≤ 57 then some (n + 4)
+  else if c = '+' then some 62 else if c = '/' then some 63 else none
+
+def b64StdGo : List Nat → List Nat → List Nat
+  | a :: b :: c :: d :: r, acc => let v := ((a * 64 + b) * 64 + c) * 64 + d; b64StdGo r (v % 256 :: v / 256 % 256 :: v / 65536 :: acc)
+  | [a, b, c], acc => let v := ((a * 64 + b) * 64 + c) * 64; (v / 256 % 256 :: v / 65536 :: acc)
+  | [a, b], acc => (((a * 64 + b) * 4096) / 65536 :: acc)
+  | _, acc => acc
+
+/-- the raw input bytes of a call (transport encoding of the ops file: standard base64) -/
+def bytesOfB64 (s : String) : List Nat := (b64StdGo (s.toList.filterMap b64StdVal) []).reverse
+
+/-- the header as jwx presents it, or the parse class when jwx refuses the input.  The framing verdict is COMPUTED by the model
+    from the raw bytes (`Framing.isJWSSerialization`) whenever the call carries them. -/
+def hdrOf (j : Json) (inB64 : Option String := none) : Res Hdr :=
   if jStr j "framing" == "bad" then .err "parse" else
   hdrOfMembers (jNat j "nsigs") (parseMembers j) (jBool j "jwkOK") (jBool j "jwkPrivate") (jStr j "payload") (hexNat (jStr j "ref"))
-    (if jHas j "strict" then jBool j "strict" else true)
+    (match inB64 with
+     | some b => Framing.isJWSSerialization (bytesOfB64 b)
+     | none => if jHas j "strict" then jBool j "strict" else true)
 
 def b64Of (j : Json) : String → Bool := fun s => (jStrs j "b64ok").contains s
 
-def parseOf (j : Json) : Res Tx :=
-  match hdrOf j with
+def parseOf (j : Json) (inB64 : Option String := none) : Res Tx :=
+  match hdrOf j inB64 with
   | .ok h => parse srcCfg (b64Of j) h
   | .err e => .err e
   | .panic p => .panic p
@@ -104,7 +122,7 @@ def absorb (d : DSt) (c : Json) : DSt :=
 
 def callOf (c : Json) : CallD :=
   let jws := jObj c "jws"
-  let tx := parseOf jws
+  let tx := parseOf jws (c.getObjValAs? String "in").toOption
   { tx := tx, payload := (c.getObjValAs? Nat "pid").toOption, sigJwk := jBool c "sigJwk", sigKeys := jNats c "sigKeys",
     kid := (match tx with | .ok t => t.kid | _ => ""), kidDid := (c.getObjValAs? String "kidDid").toOption }
 
@@ -139,10 +157,18 @@ def step (d : DSt) (j : Json) : DSt × List String :=
   | "parse" =>
     let jws := jObj (jObj j "call") "jws"
     if jStr jws "framing" == "unmodelled" then (d, ["unmodelled"]) else
-    match parseOf jws with
+    match parseOf jws ((jObj j "call").getObjValAs? String "in").toOption with
     | .ok t => (d, [txLine t])
     | .err e => (d, ["err:" ++ e])
     | .panic p => (d, ["panic:" ++ p])
+  | "framing" =>
+    let input := bytesOfB64 (jStr (jObj j "call") "in")
+    let fr := Framing.isJWSSerialization input
+    let segs := Framing.splitOn 46 input
+    let ds := (segs.take 4).map fun sg => match Framing.b64Decode sg with
+      | none => "e"
+      | some b => s!"{b.length}:{String.join ((b.take 4).map fun x => String.ofList [hexDigitC (x / 16), hexDigitC (x % 16)])}:{b.foldl (fun a c => (a * 31 + c) % 1000003) 0}"
+    (d, [s!"fr={fr} segs={segs.length} dec={String.intercalate "," ds}"])
   | "new" =>
     let d : DSt := { subs := (jArr j "subs").map parseSub, lite := jBool j "lite" }
     let (d, o) := observe d
